@@ -416,6 +416,7 @@ pub fn run(ctx: &Ctx) {
     ctx.assume("the reader is built with with_capacity(65551, 65551, ..) for bulk exploration (std zero-fills the 10 MiB buffer of `new` for a custom Read; 520 us per execution): a d<=1 subset uses DltMessageReader::new");
     ctx.assume("for streams longer than 64 bytes the menu of short-read sizes is the boundary set {1..5,15..22,255,256,4095,4096,65534..65536,max-5..max-1,max/2}, not every size");
     let bound = ctx.tier.pick(2u32, 3u32);
+    crate::bulk::run_bulk_families(ctx, "c07", false);
     // (a) message sequences, deviation-bounded
     {
         let specs = sequence_streams(ctx.tier.pick(2, 3), true);
